@@ -686,6 +686,12 @@ def subscript(I, fr, base, idx, node, quiet=False):
         return top_av(True, "subscript of %s" % base.kind, I.atoms)
     b = as_num(base)
     comps = list(idx.items) if idx.kind == K_TUPLE else [idx]
+    if b.kind == K_ARRAY and b.shape is not None:
+        for ax_, c_ in enumerate(comps[:len(b.shape)]):
+            k_ = int_const(c_) if (c_ is not None and c_.kind == K_SCALAR) else None
+            d_ = b.shape[ax_]
+            if k_ is not None and not isinstance(k_, bool) and d_ is not None and d_.is_const() and not (-d_.c <= k_ < d_.c):
+                I.emit("index-error", fr, node, what="index %d on an axis of length %d: IndexError" % (k_, int(d_.c)))
     shape = None
     basic = True
     mono_map = {}
